@@ -324,12 +324,15 @@ class AirTouchSocket(Generic[comms.Hdr]):
 
             self.is_connected = True
             _LOGGER.debug("Connected to %s:%d", self.host, self.port)
-            await self._notify_connection_changed(connected=self.is_connected)
 
-            # Send any buffered messages
+            # Send any buffered messages first. Subscribers typically send
+            # their own requests when notified of the connection, and those
+            # would be refused if the queue was still full of buffered messages.
             await self._drain_message_queue()
 
-            self._schedule(self._read())
+            if self.is_connected:
+                await self._notify_connection_changed(connected=True)
+                self._schedule(self._read())
         except OSError as ex:
             _LOGGER.debug("Unable to connect. Will try again later. Reason: %s", ex)
 
